@@ -334,10 +334,10 @@ class G:
         self.macros.append(m)
         return {'t': 'newcommand', 'm': m}
 
-    def c_def(self):
+    def c_def(self, force_delims=False):
         rng = self.rng
         name = '\\d' + ''.join(rng.choice(LET) for _ in range(3))
-        nargs = rng.choice([0, 1, 2])
+        nargs = rng.choice([0, 1, 2]) if not force_delims else rng.choice([1, 2, 2])
         body = []
         for _ in range(rng.randint(1, 3)):
             if nargs and rng.random() < 0.5:
@@ -345,7 +345,7 @@ class G:
             else:
                 body.append(self.word())
         m = {'name': name, 'nargs': nargs, 'opt': None, 'body': body, 'cmd': '\\def'}
-        if nargs and rng.random() < 0.3:
+        if nargs and (force_delims or rng.random() < 0.3):
             # delimited parameters: \def\pair(#1,#2){...}, used as \pair({a},{b})
             m['delims'] = [rng.choice(['', '(', '[', '/']) if k == 0 else rng.choice([',', '/', ':', ';', ')', '|'])
                            for k in range(nargs + 1)]
@@ -723,6 +723,26 @@ def gls_doc(rng):
     if rng.random() < 0.6:
         src = src.rstrip()
     return src, {'g.glsdefs': '\n'.join(lines) + '\n'}
+
+def delim_def_doc(rng):
+    """a \\def with delimited parameters and a few uses of it between words (also inside a footnote)"""
+    g = G(rng)
+    d = g.c_def(force_delims=True)
+    m = d['m']
+    items = [d, {'t': 'ws', 's': '\n'}]
+    for _ in range(rng.randint(1, 3)):
+        call = {'t': 'call', 'm': m, 'args': [g.arg(rng.randint(1, 2)) for _ in range(m['nargs'])], 'single': False, 'sp': ''}
+        items += [g.word(), {'t': 'ws', 's': ' '}]
+        if rng.random() < 0.25:
+            items += [{'t': 'footnote', 'name': '\\footnote', 'opt': None, 'body': {'t': 'seq', 'items': [g.word(), {'t': 'ws', 's': ' '}, call]}}]
+        else:
+            items += [call]
+        items += [{'t': 'ws', 's': rng.choice([' ', '\n'])}]
+    items.append(g.word())
+    ast = {'t': 'seq', 'items': items}
+    r = R()
+    render(ast, r)
+    return ast, r
 
 def make_doc(rng, profile=None, n=None):
     g = G(rng, profile)
